@@ -43,6 +43,19 @@ THEOREMS = [
      "match lim with Some l => N.min declared l | None => 0 end <= total -> "
      "after_body Q q_method q_content_length true h lim = "
      "if total =? declared then Open [] else if total <? declared then Closed else Unmodelled"),
+    ("closed_is_silent",
+     CONNQ[:-2] + " (drain head_rule : bool) (hs : list (hreq Q)) (a : A), "
+     "conn_run Q A q_method q_content_length q_known_host q_head app error_body package too_many_body drain head_rule a Closed hs "
+     "= (map (fun _ => None) hs, Closed)"),
+    ("closing_requests",
+     CONNQ[:-2] + " (drain head_rule : bool) (h : hreq Q) (a : A), "
+     "(q_known_host (h_q h) = false -> "
+     "conn_step Q A q_method q_content_length q_known_host q_head app error_body package too_many_body drain true a [] h "
+     "= (a, Some (no_host error_body true (q_method (h_q h))), Closed) /\\ "
+     "framed (q_method (h_q h)) (no_host error_body true (q_method (h_q h)))) /\\ "
+     "(q_known_host (h_q h) = true -> h_action h = ADrop -> "
+     "conn_step Q A q_method q_content_length q_known_host q_head app error_body package too_many_body drain head_rule a [] h "
+     "= (a, None, Closed))"),
     ("unread_body_v0_refuted",
      "(let '(os, fin) := c8_run false true w_cfg w_unread in "
      "statuses os = [Some 405; None] /\\ fin = Closed /\\ parse_responses [M_POST; M_GET] (written os) = None) /\\ "
